@@ -1,7 +1,9 @@
 (* C12 -- hand-written, code-faithful model of how a predicate variable is evaluated
    (symbolic.py: Variable._evaluate__ for the kwargs, _instantiate_using_child_vars_and_yield_results_,
-   _generate_combinations_for_child_vars_values_ = itertools.product over the *independent* evaluations of
-   the kwargs under the same sources, _process_output_and_update_values_), and of the small queries the
+   _generate_combinations_for_child_vars_values_ = as of 3f7e74b lazy nested loops over the kwargs, each evaluated
+   under the bindings produced by the ones before it (before: itertools.product over *independent* evaluations
+   under the same sources, kept below as [pred_eval_product] for the regression statement of finding C01-d),
+   _process_output_and_update_values_), and of the small queries the
    correspondence check runs around it.  Tied to the implementation by differential execution (harness/c12.py).
 
    Abstraction (stated in the evidence): bindings are keyed by *variable*; the ids of the other nodes
@@ -40,6 +42,14 @@ Section Eval.
     | AAttr a f => map (fun r => (fst r, attr f (snd r))) (eval_arg a b)
     end.
 
+  (* combinations(position, bindings, chosen): the chosen results in kwarg order; the first kwarg varies slowest and
+     every kwarg is evaluated under the bindings of the result chosen for the one before it *)
+  Fixpoint combinations (args : list arg) (b : bindings) : list (list (bindings * Z)) :=
+    match args with
+    | [] => [[]]
+    | a :: rest => flat_map (fun r => map (cons r) (combinations rest (fst r))) (eval_arg a b)
+    end.
+
   (* values = {self: hv}; for d in kwargs.values(): values.update(d.bindings) *)
   Definition merge_bindings (combo : list (bindings * Z)) : bindings :=
     fold_left (fun acc d => dict_update acc (fst d)) combo [].
@@ -50,11 +60,16 @@ Section Eval.
     Variable truthy : R -> bool.              (* bool(instance) *)
 
     (* (bindings yielded, keyword arguments of the call, is_true) per combination, in order *)
+    Definition finish (kwargs : list (name * arg)) (combo : list (bindings * Z)) : bindings * list (name * Z) * bool :=
+      let call := combine (map fst kwargs) (map snd combo) in
+      (merge_bindings combo, call, truthy (body call)).
+
     Definition pred_eval (kwargs : list (name * arg)) (b : bindings) : list (bindings * list (name * Z) * bool) :=
-      map (fun combo =>
-             let call := combine (map fst kwargs) (map snd combo) in
-             (merge_bindings combo, call, truthy (body call)))
-          (product (map (fun ka => eval_arg (snd ka) b) kwargs)).
+      map (finish kwargs) (combinations (map snd kwargs) b).
+
+    (* the definition before 3f7e74b: every kwarg evaluated under the same sources, itertools.product *)
+    Definition pred_eval_product (kwargs : list (name * arg)) (b : bindings) : list (bindings * list (name * Z) * bool) :=
+      map (finish kwargs) (product (map (fun ka => eval_arg (snd ka) b) kwargs)).
   End Call.
 End Eval.
 
@@ -71,12 +86,10 @@ Definition model_outcome (c : pcase) : sx :=
   end.
 
 
-(* 100*class + code.  class: 0 = in F, 1 = K_predshare, 2 = malformed call (the property is silent: impl vs model only) *)
+(* 100*class + code.  class: 0 = well-formed call (F), 2 = call Python itself rejects (the property is silent: impl vs model only) *)
 Definition case_code (c : pcase) (impl : sx) : Z :=
   let m := model_outcome c in
   if negb (wellformed c) then 200 + (if sx_eqb impl m then 0 else 3)
   else let s := spec_outcome c in
-       (if shares_open_var c then 100 else 0) +
-       (let k := classify (canon impl) (canon m) (canon s) in
-        if Z.eqb k 0 then (if sx_eqb impl m then 0 else 4) else k).   (* 4: same bag, order differs from the model *)
-
+       let k := classify (canon impl) (canon m) (canon s) in
+       if Z.eqb k 0 then (if sx_eqb impl m then 0 else 4) else k.   (* 4: same bag, order differs from the model *)
